@@ -368,6 +368,10 @@ func textFile(lines []string) string {
 			sb.WriteString("\t" + l + "\r\n")
 		}
 	}
+	if len(lines)%2 == 1 {
+		// every other text ends without a final newline: its last rule counts like any other
+		return strings.TrimRight(sb.String(), "\r\n \t")
+	}
 	return sb.String()
 }
 
